@@ -92,6 +92,14 @@ func genC03Case(r *Rng, i int) (*RCase, bool) {
 	if i%7 == 0 {
 		rc.Src = pickSrc(r)
 	}
+	if i%12 == 9 {
+		// the reused Reader's previous stream stopped inside a block header (header bytes staged); the
+		// input under test arrives in pieces, so that its first header is assembled in that staging area
+		rc.Prior.Stream = StreamSpec{Kind: "synth", Synth: &SynthSpec{Seed: r.U64(), Blocks: 2, Size: 300, Kinds: r.PickS([]string{"d", "d", "s"})}}
+		rc.Prior.Cut = r.Range(1, 40)
+		rc.Prior.Read = -1
+		rc.Src = SrcSpec{Kind: r.PickS([]string{"bufio", "plain"}), Buf: r.Pick([]int{16, 64, 4096}), Chunk: r.PickS([]string{"one", "one", "rand"}), Seed: r.U64(), Term: "eof"}
+	}
 	return rc, knownValid
 }
 
